@@ -28,7 +28,7 @@ inductive Res where
   | refused (why : String)
   | case1 (level box : Nat) (loc : List Rat)
   | case2
-deriving Repr
+deriving Repr, DecidableEq
 
 def query (g : List Rat) (levels : List PLevel) (p : List Rat) : Res :=
   let exact := levels.map fun l => matchList (fun _ => 0) l p
